@@ -316,8 +316,8 @@ def f4_witness():
 
 
 def gen(rng, tier):
-    n_chain = {"quick": 1300, "thorough": 30000, "search": 12000}[tier]
-    n_sdk = {"quick": 700, "thorough": 15000, "search": 12000}[tier]
+    n_chain = {"quick": 6000, "thorough": 150000, "search": 40000}[tier]
+    n_sdk = {"quick": 3000, "thorough": 75000, "search": 40000}[tier]
     depth = {"quick": 5, "thorough": 7, "search": 6}[tier]
     yield f4_witness()
     for i in range(n_chain):
